@@ -166,13 +166,16 @@ class ClassInfo:
 
 
 class Module:
-    def __init__(self, name: str, path: Path, rel: str, src: str | None = None):
+    def __init__(self, name: str, path: Path, rel: str, src: str | None = None, inline: bool = True):
         self.name = name
         self.path = path
         self.rel = rel
         self.src = path.read_text() if src is None else src
         self.sha = hashlib.sha256(self.src.encode()).hexdigest()
         self.tree = ast.parse(self.src, filename=str(path))
+        # helpers that no rule knows (extract-function refactorings) are dissolved into their callers: see inline.py
+        from .inline import apply as dissolve_helpers
+        self.inlined: list[str] = dissolve_helpers(self.tree) if inline else []
         set_parents(self.tree)
         self.imports: dict[str, str] = {}
         self.funcs: dict[str, FuncInfo] = {}
@@ -241,9 +244,10 @@ class Module:
 
 
 class Program:
-    def __init__(self, root: Path | None = None, overlay: dict[str, str] | None = None):
+    def __init__(self, root: Path | None = None, overlay: dict[str, str] | None = None, inline: bool = True):
         self.root = Path(root) if root else repo_root()
         overlay = overlay or {}
+        self.overlay = overlay
         pkg = self.root / PKG
         if not pkg.is_dir():
             raise AnalysisError(f"package directory {pkg} not found")
@@ -256,7 +260,7 @@ class Program:
             if name.endswith(".__init__"):
                 name = name[: -len(".__init__")]
             try:
-                self.modules[name] = Module(name, path, rel, overlay.get(rel))
+                self.modules[name] = Module(name, path, rel, overlay.get(rel), inline)
             except SyntaxError as exc:
                 raise AnalysisError(f"cannot parse {rel}: {exc}") from exc
         self._method_index: dict[str, list[FuncInfo]] = {}
